@@ -14,11 +14,12 @@ import re
 from ..core import rule, AnalysisError
 from ..engine import cfg as cfgmod, flow, emit
 from ..engine import pattern as pm
+from ..engine import pattern as P
 from ..engine.facts import dotted, const, src, walk_func, str_value, enclosing_stmt, ancestors
 from . import skeletons as sk
 from . import c05  # declares-order is registered for C08 there
 from . import c18  # module-encoding (module-directory path writes what it declares) is registered for C08 there
-from .common import calls, stmt_nodes, param_names, kwmap
+from .common import calls, stmt_nodes, param_names, kwmap, pn, access_paths
 
 
 SET_ATTRS_CACHE = {}
@@ -274,7 +275,7 @@ def render_prefix(ctx):
     P = "render_"
     init = db.func("codegen._GenerateRenderMethod.__init__")
     f = [n for n in walk_func(init) if isinstance(n, ast.BinOp) and isinstance(n.left, ast.Constant) and n.left.value == P + "%s"]
-    ctx.check(bool(f) and src(f[0].right) == "node.funcname", "codegen.name", db.where(init), "top-level callables are not named render_<funcname>", "render_%s % node.funcname")
+    ctx.check(bool(f) and src(f[0].right) == pn(init, 3) + ".funcname", "codegen.name", db.where(init), "top-level callables are not named render_<funcname>", "render_%s % node.funcname")
     dd = db.func("codegen._GenerateRenderMethod.write_def_decl")
     ctx.check(pm.has(dd, "'return render_%s(%s)' % $_"), "codegen.stub", db.where(dd), "def stubs do not call render_<name>", "stub calls render_%s")
     for meth in ("has_def", "get_def", "_get_def_callable"):
@@ -282,7 +283,7 @@ def render_prefix(ctx):
         ctx.check(pm.has(fn, "'render_%s' % $n"), "Template." + meth, db.where(fn), "%s does not look up 'render_%%s' %% name" % meth, "render_%s % name")
     ld = db.func("template.Template.list_defs")
     t = src(ld)
-    ok = ("i[:%d] == '%s'" % (len(P), P)) in t and ("i[%d:]" % len(P)) in t or "startswith('render_')" in t and ("[%d:]" % len(P)) in t
+    ok = pm.has(ld, "[$i[%d:] for $i in dir(self.module) if $i[:%d] == '%s']" % (len(P), len(P), P)) or pm.has(ld, "[$i[%d:] for $i in dir(self.module) if $i.startswith('%s')]" % (len(P), P))
     ctx.check(ok, "Template.list_defs", db.where(ld), "list_defs slices with a length that is not len('render_') = %d: %s" % (len(P), t.split("return")[-1].strip()), "prefix test and slice use %d" % len(P))
     dt = db.func("runtime._decorate_toplevel.decorate_render.go")
     sl = [n for n in walk_func(dt) if isinstance(n, ast.Subscript) and "__name__" in src(n.value) and isinstance(n.slice, ast.Slice)]
@@ -292,7 +293,7 @@ def render_prefix(ctx):
         ctx.check(src(fn).count(pat) >= 2, "Cache." + meth, db.where(fn), "%s does not use %s for key and defname" % (meth, pat), pat)
     tn = db.func("runtime.TemplateNamespace._get_star")
     ctx.check(pm.has(tn, "self.template.module._exports") and pm.has(tn, "self.template._get_def_callable($k)"), "exports", db.where(tn), "namespace star-import does not resolve _exports through _get_def_callable", "_exports -> render_<name>")
-    body = [n for n in walk_func(init) if isinstance(n, ast.Assign) and src(n.targets[0]) == "name" and isinstance(n.value, ast.Constant)]
+    body = [n for n in walk_func(init) if isinstance(n, ast.Assign) and isinstance(n.targets[0], ast.Name) and isinstance(n.value, ast.Constant) and isinstance(n.value.value, str) and n.value.value.startswith(P)]
     ti = db.func("template.Template.__init__")
     ctx.check(bool(body) and body[0].value.value == "render_body" and "self.module.render_body" in src(ti), "body-name", db.where(ti), "body callable name disagrees between codegen and Template", "render_body")
 
